@@ -1,4 +1,4 @@
-import Ptn.C04.Props
+import Ptn.C04.Core
 import Ptn.C05.HeffModel
 /-! Lemmas for the effective Hamiltonians (single site, link). -/
 namespace Ptn.C05.Heff
